@@ -754,6 +754,13 @@ func (r *Runner) resolveSlashBinaryExpression(v1, v2 interface{}) (interface{}, 
 func (r *Runner) resolvePercentBinaryExpression(v1, v2 interface{}) (interface{}, error) {
 	n1 := convToNumber(v1)
 	n2 := convToNumber(v2)
+	if n1.IsFinite() && n2.IsFinite() && n2.Sign() != 0 {
+		// a 34-digit context reports "division impossible" (NaN) whenever the integer
+		// quotient has more than 34 digits; the remainder itself is always representable,
+		// so compute it without a precision limit and then bring it into the context
+		exact := decimal.WithContext(decimal.ContextUnlimited).Rem(n1, n2)
+		return newDecimalBig().Set(exact), nil
+	}
 	return newDecimalBig().Rem(n1, n2), nil
 }
 
